@@ -57,9 +57,40 @@ CLAIMED.update({
             _SCRIPT_NOTE, "DESIGN.md 4.3, 5 (C10)", "editscript"),
 })
 
+CLAIMED.update({
+    "C04": ("model_checking",
+            "TLA+ contract Bounded.tla (TLC: soundness, variant, convergence under fairness); histories of every "
+            "bounded object recorded by an external monitor validated by TLC against BoundedTrace.tla",
+            "Bounded.tla states the refinement protocol clause by clause (never widens, contains the final cost, "
+            "progress => strictly smaller, no progress => single value, at most hi-lo progress steps). TLC checks the "
+            "design incl. convergence under weak fairness. An external monitor wraps bounds()/tighten_bounds() of "
+            "every class of the package, records every object created while the corpus is diffed (top-level and "
+            "nested edits, matchers, searches; passively and with a bounds() probe around every step), drives each "
+            "to quiescence and TLC validates every distinct history.",
+            "Trusted: harness/monitor.py (outermost-call rule, logging at return), TLC. The final cost of an object "
+            "is the value it converges to itself.", "DESIGN.md 4.2, 5 (C04)", "bounded"),
+    "C05": ("model_checking",
+            "TLA+ contract EditApi.tla (write-once reference result); TLC enumerates/simulates all histories of public "
+            "edit operations (EditApiGen) which are replayed on real edits; outcomes validated by TLC (EditApiTrace)",
+            "EditApi.tla: one (cost, script) per input pair whatever sequence of bounds/tighten_bounds/is_complete/"
+            "valid/edits/has_non_zero_cost calls - on the top-level edit or any reachable nested edit - precedes the "
+            "canonical completion, under any quiet/colour setting of the default printer, and no call raises. TLC "
+            "enumerates all histories up to a length bound and simulates longer ones; each is replayed on fresh real "
+            "edits for pairs with nested containers (JSON, XML) and TLC compares every outcome with the write-once "
+            "reference.",
+            "Trusted: props/c05.py driver (operation dispatch, reachability of nested edits through attributes), "
+            "harness/flatten.py for the script digest, TLC.", "DESIGN.md 5 (C05)", "editapi"),
+})
+
 NOT_YET = "check not built yet in this round (planned: see DESIGN.md section 5)"
 
 ENGINES = [
+    {"name": "bounded", "path": "spec/Bounded.tla spec/BoundedTrace.tla harness/monitor.py props/c04.py",
+     "serves_properties": ["C04"],
+     "kind_free_text": "TLA+ refinement-protocol contract + external monitor + TLC trace validation"},
+    {"name": "editapi", "path": "spec/EditApi.tla spec/EditApiGen.tla spec/EditApiTrace.tla props/c05.py",
+     "serves_properties": ["C05"],
+     "kind_free_text": "TLC-enumerated API histories replayed into real edits, outcomes validated against a write-once register"},
     {"name": "editscript", "path": "spec/EditScript.tla spec/EditScriptMC.tla spec/EditScriptTrace.tla harness/project.py "
                                    "harness/flatten.py harness/corpus.py props/_script.py",
      "serves_properties": ["C01", "C02", "C03", "C10"],
